@@ -401,6 +401,145 @@ def auto_mode_case(spec, mode, seed, dis, hist):
         dis.append({'what': 'jtvec with file_dir differs from jtvec in memory', 'case': b})
 
 
+
+# ------------------------------------------------ re-used simulation (history)
+PROP_NAMES = {0: ['property_x'], 1: ['property_x', 'property_y'],
+              2: ['property_x', 'property_z'], 3: ['property_x', 'property_y', 'property_z']}
+HISTORY = ["Simulation(model m0)", "jvec(v)", "model.property_* = m1 (in place)",
+           "clean('computed')", "jvec(v)", "jtvec(w)"]
+
+
+def updated_props(spec, npr):
+    out = []
+    for p in spec['props']:
+        p = np.asarray(p, float)
+        if spec['mapping'] in ('Conductivity', 'Resistivity'):
+            out.append(p * npr.uniform(0.6, 1.6, p.size))
+        else:
+            out.append(p + npr.uniform(-0.4, 0.4, p.size))
+    return out
+
+
+def gridding_kw(spec, mode, seed):
+    if mode == 'same':
+        return dict(gridding='same')
+    if mode in ('input', 'dict'):
+        return dict(gridding=mode,
+                    gridding_opts=comp_grids_for(spec, mode, np.random.RandomState(seed % 2**31)))
+    return dict(gridding=mode, gridding_opts=gopts(spec))
+
+
+def reused_and_fresh(spec, mode, seed, solver):
+    """One Simulation re-used after an in-place model update + clean('computed')
+    versus a FRESH Simulation of the updated model; same queries on both.
+    Every solver call is recorded."""
+    npr = np.random.RandomState(seed)
+    v = model_vec(npr, spec)
+    props1 = updated_props(spec, npr)
+    kw = gridding_kw(spec, mode, seed)
+    shape = (len(spec['hx']), len(spec['hy']), len(spec['hz']))
+    with H.Recorder() as r1, H.quiet():
+        sim = H.new_sim(spec, solver=solver, **kw)
+        _ = sim.jvec(v.copy())                       # fills whatever caches exist
+        n0 = len(r1.calls)
+        for name, arr in zip(PROP_NAMES[spec['aniso']], props1):
+            setattr(sim.model, name, np.asarray(arr).reshape(shape, order='F'))
+        sim.clean('computed')
+        jv_re = np.array(sim.jvec(v.copy()))
+        wts = np.array(sim.data.weights.data, dtype=float)
+        amp = np.abs(np.array(spec['amp']))
+        y = data_vec(npr, sim.survey.shape, amp * np.where(np.isfinite(wts), wts, 1.0))
+        with np.errstate(invalid='ignore', divide='ignore'):
+            y = np.where(np.isfinite(y / wts), y, 0.0)
+        jt_re = np.array(sim.jtvec(y.copy()))
+    calls_re = r1.calls[n0:]
+    # Automatic gridding derives the computational grids from the model given at
+    # construction and keeps them over clean('computed') (by design): the fresh
+    # simulation gets the very same grids, so only the MODEL history differs.
+    kw_f = kw
+    if mode in ('single', 'frequency', 'source', 'both'):
+        kw_f = dict(gridding='dict', gridding_opts={
+            sn: {fn: sim.get_grid(sn, fn) for fn in sim.survey.frequencies.keys()}
+            for sn in sim.survey.sources.keys()})
+    with H.Recorder() as r2, H.quiet():
+        fresh = H.new_sim(spec, props=props1, solver=solver, **kw_f)
+        jv_f = np.array(fresh.jvec(v.copy()))
+        jt_f = np.array(fresh.jtvec(y.copy()))
+    return dict(v=v, y=y, jv_re=jv_re, jt_re=jt_re, jv_f=jv_f, jt_f=jt_f,
+                calls_re=calls_re, calls_f=r2.calls, wts=wts)
+
+
+def _solver_input(inp):
+    """(model on the computational grid, source description) of one solve call."""
+    m = inp['model'].interpolate_to_grid(inp['grid'])
+    props = [np.array(a) for a in (m.property_x, m.property_y, m.property_z) if a is not None]
+    if 'sfield' in inp:
+        src = np.array(inp['sfield'].field)
+    else:
+        src = np.array([float(inp['frequency'])])
+    return props, src
+
+
+def history_case(spec, mode, seed, dis, hist):
+    """Tie of the hypothesis 'every solve uses the system of the CURRENT model'
+    (Hu/Hb of jt_adjoint share one sigma with He) for a re-used object: all
+    solver inputs and all results must equal those of a fresh simulation."""
+    r = reused_and_fresh(spec, mode, seed, H.LOOSE)
+    b = dict(H.brief(spec), gridding=mode, history=HISTORY)
+    hist['history:' + mode] = hist.get('history:' + mode, 0) + 1
+    if len(r['calls_re']) != len(r['calls_f']):
+        dis.append({'what': 're-used simulation issues a different number of solves than a fresh one',
+                    'case': b, 'impl': len(r['calls_re']), 'model': len(r['calls_f'])})
+        return
+    for k, ((i1, _o1), (i2, _o2)) in enumerate(zip(r['calls_re'], r['calls_f'])):
+        p1, s1 = _solver_input(i1)
+        p2, s2 = _solver_input(i2)
+        bad = len(p1) != len(p2) or any(
+            a.shape != c.shape or np.max(np.abs(a - c)) > 1e-12 * np.max(np.abs(c)) for a, c in zip(p1, p2))
+        if bad:
+            dis.append({'what': 're-used simulation (model updated in place, clean(computed)) hands a '
+                                'different MODEL to the solver than a fresh simulation', 'case': b,
+                        'solve': k, 'kind': 'jvec/back' if 'sfield' in i1 else 'forward'})
+            break
+        if s1.shape != s2.shape or np.max(np.abs(s1 - s2)) > 1e-9 * max(np.max(np.abs(s2)), 1e-300):
+            dis.append({'what': 're-used simulation hands a different SOURCE to the solver than a '
+                                'fresh simulation', 'case': b, 'solve': k})
+            break
+    for nm in ('jv', 'jt'):
+        a, c = r[nm + '_re'], r[nm + '_f']
+        m = np.isfinite(c)
+        if a.shape != c.shape or not np.array_equal(np.isfinite(a), m) or \
+                (m.any() and np.max(np.abs(a[m] - c[m])) > 1e-9 * np.max(np.abs(c[m]))):
+            dis.append({'what': ('jvec' if nm == 'jv' else 'jtvec') + ' of the re-used simulation differs '
+                                'from a fresh simulation of the same model', 'case': b})
+
+
+def history_dot_case(spec, mode, seed):
+    """Searcher: adjoint identity on the re-used object and J v vs a fresh one."""
+    r = reused_and_fresh(spec, mode, seed, H.TIGHT)
+    for _inp, out_ in r['calls_re'] + r['calls_f']:
+        info = out_[1]
+        if isinstance(info, dict) and info.get('exit', 0) != 0 and info.get('rel_error', 1) > 1e-9:
+            return None, float('nan')
+    jv, jt, v, y = r['jv_re'], r['jt_re'], r['v'], r['y']
+    mask = np.isfinite(jv) & (y != 0)
+    lhs = float(np.sum(np.conj(y[mask]) * jv[mask]).real)
+    rhs = float(np.sum(jt * v))
+    scale = float(np.sum(np.abs(y[mask] * jv[mask])))
+    err = abs(lhs - rhs) / max(scale, 1e-300)
+    m2 = np.isfinite(r['jv_f'])
+    dev = float(np.max(np.abs(jv[m2] - r['jv_f'][m2])) / max(np.max(np.abs(r['jv_f'][m2])), 1e-300))
+    if err > 1e-7 or dev > 1e-7:
+        return {'signature': 're-used simulation after model update: J^T not the adjoint of J / '
+                             'J v not that of the current model',
+                'history': HISTORY, 'gridding': mode, 'spec': spec, 'seed': int(seed),
+                'observed': {'Re<w,Jv>': lhs, '<JTw,v>': rhs, 'relative': err,
+                             'max |Jv(re-used) - Jv(fresh)| / max|Jv|': dev},
+                'required': 'adjoint identity to solver tolerance; J v equal to a fresh simulation'}, \
+            max(err, dev)
+    return None, max(err, dev)
+
+
 def vt_validation(ctx, dis, n):
     """Section hypothesis V_T for non-'same' gridding: discretize's
     volume_average(...).T (used by the gradient) is the transpose of emg3d's
@@ -523,10 +662,22 @@ def correspondence(ctx):
         auto_mode_case(sp, mode, rng.randrange(2**31), dis, hist)
         seen.add(('auto', mode))
         na += 1
+    # re-used simulation: in-place model update + clean('computed'), then jvec / jtvec
+    hmodes = ['input', ['single', 'frequency', 'source', 'both'][rng.randrange(4)], 'same']
+    if ctx.thorough:
+        hmodes = ['input', 'dict', 'single', 'frequency', 'source', 'both', 'same']
+    nh = 0
+    for i, mode in enumerate(hmodes):
+        two_src = (i + off) % 2 == 0
+        sp = H.add_observed(H.gen_spec(rng, idx=off + 11 * i + 3, n_src=2 if two_src else 1,
+                                       n_freq=1 if two_src else 2, n_rec=2, max_pairs=2), rng)
+        history_case(sp, mode, rng.randrange(2**31), dis, hist)
+        seen.add(('history', mode))
+        nh += 1
     nv = vt_validation(ctx, dis, 40 if ctx.thorough else 12)
     hist['V_T validations'] = nv
     return {
-        'evaluations': len(specs) + nt + nd + 2 * na + nv,
+        'evaluations': len(specs) + nt + nd + 2 * na + nh + nv,
         'distinct_nontrivial': len(seen),
         'rule': "same-grid cases as for C07 (random stretched 4..5^3 grids, six maps, four anisotropy "
                 "cases, six source kinds, electric/magnetic absolute/relative receivers, NaN gaps, six "
@@ -539,11 +690,14 @@ def correspondence(ctx):
                 "_interp_volume_average_adj with a non-zero output array vs Coq vt_add3; automatic "
                 "modes single/frequency/source/both (quick: two of them, thorough: all) vs the numpy "
                 "mirror of gradient_pipeline_T (mirror compared with Coq on the small cases), in memory "
-                "and with file_dir; V_T validations with non-zero output array. non-trivial = not "
+                "and with file_dir; V_T validations with non-zero output array; HISTORY cases (gridding input, one "
+                "automatic mode, same; thorough: all modes): one Simulation re-used after jvec, in-place model "
+                "update and clean('computed') vs a fresh Simulation of the updated model -- every solver "
+                "call's model (on the computational grid) and source, and the jvec / jtvec results, must agree. non-trivial = not "
                 "(Conductivity, isotropic, same grid)",
         'samples': [H.brief(s) for s in specs[:3]] + [dict(H.brief(s), gridding=im['mode'])
                                                       for s, im in zip(tspecs[:2], timpls[:2])],
-        'traces_validated_against_impl': len(specs) + nt + nd + 2 * na,
+        'traces_validated_against_impl': len(specs) + nt + nd + 2 * na + nh,
         'histogram': hist,
         'disagreements': dis,
     }
@@ -640,6 +794,15 @@ def search(ctx, broken):
     hits = []
     off = rng.randrange(24)
     n = 5 if ctx.thorough else 3
+    for i, mode in enumerate(['input', 'single', 'both', 'dict', 'frequency', 'source', 'same']
+                             if ctx.thorough else ['input', 'single', 'both']):
+        spec = H.add_observed(H.gen_spec(rng, idx=off + 13 * i + 4, n_src=2 if i % 2 else 1,
+                                         n_freq=1 if i % 2 else 2, n_rec=2, max_pairs=2), rng)
+        hit, err = history_dot_case(spec, mode, rng.randrange(2**31))
+        ctx.notes.append(f"history-test gridding={mode}: defect={err:.2e}")
+        if hit:
+            hits.append(hit)
+            return hits
     for i in range(n):
         spec = H.add_observed(H.gen_spec(rng, idx=off + 7 * i, n_src=2, n_freq=2 if i == 0 else None), rng)
         for gi, gridding in enumerate(GRIDDINGS if (i == 0 or ctx.thorough)
@@ -662,7 +825,9 @@ def replay(ctx, payload):
     fi = payload.get('failing_input')
     if not fi or 'spec' not in fi:
         return False
-    if 'gridding' in fi:
+    if 'history' in fi:
+        hit, _ = history_dot_case(fi['spec'], fi['gridding'], fi['seed'])
+    elif 'gridding' in fi:
         hit, _ = dot_case(fi['spec'], fi['gridding'], fi['file_dir'], fi['seed'])
     else:
         hit, _ = fd_case(fi['spec'], fi['seed'])
